@@ -14,7 +14,7 @@ META = {
     "all rearrangement index vectors {0..P-1}^P x all intervals incl. None; a case is (n_alleles, read set, counts, genotype[, "
     "index vector, interval]); non-trivial when the genotype has >= 2 haplotypes or the read set has >= 2 reads",
     "bound": {"quick": "P<=3, n_alleles in {(2),(3),(2,2),(2,3),(3,2)}, <=2 reads, counts {1,2,3}",
-              "thorough": "P<=4, adds (3,3),(2,2,2),(2,3,2); <=3 reads on the 1-SNV and (2,2) shapes"},
+              "thorough": "P<=4, adds (3,3),(2,2,2),(2,3,2); <=3 reads on the 1-SNV shapes"},
     "assumptions": ["reference: literal triple loop with math.log, NaN cell = factor one", "comparison rtol 1e-12 (same operation order is not assumed: atol 1e-12 * |llk|)"],
     "trusted_base": ["vmc/refmodel.llk"],
 }
@@ -86,7 +86,7 @@ def plan(tier, seed):
     for A in shapes(tier):
         n_letters = len(read_alphabet(A))
         maxR = 2
-        if tier == "thorough" and n_letters <= 49:
+        if tier == "thorough" and n_letters <= 9:
             maxR = 3
         for P in range(1, maxP + 1):
             # split the read-set space by first letter to get parallelism
